@@ -1847,6 +1847,34 @@ def _main_cases(rng, call):
     return out
 
 
+def _kl_cases(rng, call):
+    """keylog_reader.py (group Keylog): `Key(line)` on lines with few or many fields; get_keys_from_string with the REAL regular
+    expression against the translation with the model's `accepts` as `re_match`"""
+    import importlib
+    kr = importlib.import_module("tlexport.keylog_reader")
+    out = []
+    st = lambda x: "([" + ", ".join(str(ord(c)) for c in x) + "] : List Nat)"
+    hexs = lambda n, up: "".join(rng.choice("0123456789abcdef" + ("ABCDEF" if up else "")) for _ in range(n))
+
+    def line():
+        lab = rng.choice(["CLIENT_RANDOM", "CLIENT_HANDSHAKE_TRAFFIC_SECRET", "AB", "X0_", "A" * 33, "client_random", "RSA", "EXPORTER_SECRET1"])
+        cr = hexs(rng.choice([64, 64, 64, 63, 65]), rng.random() < 0.3)
+        return rng.choice([f"{lab} {cr} {hexs(rng.randint(0, 6), True)}", f"{lab} {cr}", f"{lab}  {cr} ab", f"# {lab}", "", f"{lab} {cr} zz yy"])
+    for _ in range(3):
+        l = rng.choice([line(), "a b", "a", "a b c d", " "])
+        me = types.SimpleNamespace()
+        k, v = call(kr.Key.__init__, me, l)
+        out.append(("(fun l => (KL.Key_init l).map fun k => (k.label, k.clientRandom, k.value))", st(l),
+                    f".ok ({st(me.label)}, {st(me.client_random)}, {st(me.value)})" if k == "ok" else f".error .{v}"))
+    for _ in range(3):
+        text = rng.choice(["\n", "\r\n", "\n\n"]).join(line() for _ in range(rng.randint(0, 4)))
+        k, v = call(kr.get_keys_from_string, text)
+        exp = "[" + ", ".join(f"({st(x.label)}, {st(x.client_random)}, {st(x.value)})" for x in v) + "]"
+        out.append(("(fun s => (KL.get_keys_from_string (fun l => if TLX.Keylog.accepts .any l then some () else none) s).map "
+                    "fun ks => ks.map fun k => (k.label, k.clientRandom, k.value))", st(text), f".ok {exp}"))
+    return out
+
+
 def _qs_cases(rng, call):
     """QuicSession.decrypt_packet / handle_frame / handle_quic_packet (group QuicSess2) on a session made without `__init__`, with toy
     decryptors, a toy `parse_frames` and toy `check_key_epoch` / `get_full_packet_number` / `set_largest_packet_number` — the same
@@ -2402,6 +2430,7 @@ def _cases(rng, n):
         out.extend(_qtls_cases(rng, call))
         out.extend(_qs_cases(rng, call))
         out.extend(_main_cases(rng, call))
+        out.extend(_kl_cases(rng, call))
         for _ in range(2):
             out.extend(_bld_cases(rng, call))
         # output builders
